@@ -9,6 +9,7 @@ import Ztr.Model.Runner
 import Ztr.Model.Bytecode
 import Ztr.Model.Threads
 import Ztr.Model.Bracket
+import Ztr.Model.Sched
 /-!
 Line protocol between the Python harness and the executable model: one JSON object per line in,
 one JSON object per line out.  `op` selects the model component.  Unknown or malformed requests are
@@ -381,6 +382,24 @@ def opBracket (j : Json) : Except String Json := do
   return Json.mkObj [("g", jNats [r.gcThr, r.gcDbg, r.tbFormat, r.tbPrint, r.trace, r.thrTrace, r.setTrace,
     r.profile, r.warn, r.stdout, r.stderr])]
 
+/-- `sched`: resume_tests as a transition system -/
+def opSched (j : Json) : Except String Json := do
+  let n ← J.nat! j "n"
+  let k ← J.nat! j "k"
+  let labels ← (← J.arr! j "labels").toList.mapM (fun (x : Json) => do
+    let a ← x.getArr?
+    let tag ← a[0]!.getStr?
+    match tag with
+    | "iter" => return Ztr.Sched.Label.iter
+    | "line" => return .line (← a[1]!.getNat?) (← a[2]!.getNat?)
+    | "dots" => return .dots (← a[1]!.getNat?)
+    | "done" => return .done (← a[1]!.getNat?)
+    | "dead" => return .dead (← a[1]!.getNat?)
+    | _ => throw s!"bad label {tag}")
+  let r := Ztr.Sched.exec labels (Ztr.Sched.init n k)
+  return Json.mkObj [("printed", Json.arr (r.printed.map (fun (i, ls) => Json.arr #[jN i, jNats ls])).toArray),
+    ("cur", jN r.cur), ("maxRunning", jN r.maxRunning), ("finished", Json.bool (Ztr.Sched.finished r))]
+
 def dispatch (j : Json) : Except String Json := do
   let op ← J.str! j "op"
   match op with
@@ -391,6 +410,7 @@ def dispatch (j : Json) : Except String Json := do
   | "bytecode" => opBytecode j
   | "threads" => opThreads j
   | "bracket" => opBracket j
+  | "sched" => opSched j
   | "world" => opWorld j
   | "proto" => opProto j
   | "suites" => opSuites j
